@@ -7,7 +7,6 @@ from itertools import combinations
 from y0.algorithm.identify.cg import (
     World,
     _variable_sort_key,
-    _both_ways,
     _get_directed_edges,
     extract_interventions,
     is_inconsistent,
@@ -66,6 +65,10 @@ def parallel_worlds_graph(graph, worlds):
     return NxMixedGraph.from_edges(nodes=nodes, directed=directed, undirected=set(graph.undirected.edges()) | undirected)
 
 
+def flipped(pairs):
+    return {(b, a) for a, b in pairs}
+
+
 def worlds_of(variables):
     return {World(variable.interventions) for variable in variables if isinstance(variable, CounterfactualVariable)}
 
@@ -87,21 +90,21 @@ def factual_and_doppleganger_neighbors(graph, worlds):
 
 def counterfactual_and_dopplegangers(graph, worlds):
     # EVERY unordered pair of worlds
-    return _both_ways({
+    return flipped({
         (u @ world_1, u @ world_2) for world_1, world_2 in combinations(worlds, 2) for u in graph.nodes()
         if node_not_an_intervention_in_world(world_1, u) and node_not_an_intervention_in_world(world_2, u)
     })
 
 
 def counterfactual_and_doppleganger_neighbors(graph, worlds):
-    return _both_ways({
+    return flipped({
         (u @ world_1, v @ world_2) for world_1, world_2 in combinations(worlds, 2) for u in graph.nodes() for v in graph.undirected.neighbors(u)
         if node_not_an_intervention_in_world(world_1, u) and node_not_an_intervention_in_world(world_2, v)
     })
 
 
 def counterfactual_and_neighbors(graph, worlds):
-    return _both_ways({
+    return flipped({
         (u @ world, v @ world) for world in worlds for u in graph.nodes() for v in graph.undirected.neighbors(u)
         if node_not_an_intervention_in_world(world, u) and node_not_an_intervention_in_world(world, v)
     })
